@@ -246,9 +246,16 @@ namespace {
                         pika::this_thread::yield();
                     }
                 }
-                if (t.body == B_BLOCK) t.sem.release();
+                // a blocked target: half of the time nobody ever releases the semaphore, the interruption itself has to
+                // wake the thread (it is delivered at the interruption point inside the wait)
+                if (t.body == B_BLOCK && !(t.arg & 1)) t.sem.release();
                 t.th.join();
                 after_join(t, idx, t.th.joinable());
+                if (t.body == B_BLOCK && (t.arg & 1))
+                {
+                    VH_CHECK(t.interrupted, "C13.interrupt_lost", "blocked thread %d finished without being interrupted", idx);
+                    probe("interrupt.woke_blocked_thread");
+                }
                 if (t.body == B_INTERRUPTIBLE)
                     VH_CHECK(t.interrupted, "C13.interrupt_lost", "interruptible thread %d finished without being interrupted", idx);
                 break;
